@@ -116,7 +116,10 @@ def observe(fmt, ir, node, cfg):
             _dev(P, fmt, ir, cfg, {"where": "parse", "field": "raises", "how": type(e).__name__, "got": repr(e)[:200],
                                    "tkind": "-", "dkind": "-"}, src)
             return True
-        for d in cmp_ir(_expect(ir, fmt), back):
+        # (the interface's own description: compared where the format keeps it apart from the parameter section - the
+        # argparse description assignment - and for ReST docstrings; for indented Google / NumPy docstrings the recorded
+        # finding `indented-docstring-misparsed` folds the section into it)
+        for d in cmp_ir(_expect(ir, fmt), back, ir_doc=fmt == "argparse" or cfg.get("style") == "rest"):
             _dev(P, fmt, ir, cfg, d, src)
         if fmt == "function":
             # the receiver (self / cls) is not a parameter of the interface; the parser reports it as the "type"
